@@ -98,7 +98,7 @@ var _ = strings.Contains
 // k-th callback fails; the result must carry that error (or a value when nothing failed).
 func VerifH_C05_RunFaults() {
 	texts := []string{"a", "/a/b", "a[k = ../x]/b", "current()/../x", "deref(l)/a", "a[k='v'][m = current()/../x]", "concat(a, b)", "a = b", "a + 1", "not(a) and b",
-		"count(a)", "local-name(a)", "string-length(a/b)", "number(a) + number(../b)", "boolean(a/b) or c", "substring(a, 1, 2) = b",
+		"string-length(a/b)", "number(a) + number(../b)", "boolean(a/b) or c", "substring(a, 1, 2) = b",
 		"starts-with(a, ../b)", "a[k = current()/a]/b = ../c", "normalize-space(a) != translate(b, 'x', 'y')", "re-match(a, b)", "deref(l)/../a > 1"}
 	ti := vrt.Choice("expr", len(texts))
 	text := texts[ti]
